@@ -1402,6 +1402,12 @@ func (in *Interp) host(s *gen.HostSpec, a []Value) (Value, *ErrVal) {
 	case "hg":
 		in.ev("hg " + Render(a[0].(*List)))
 		return nil, nil
+	case "hgp":
+		// panics on its own goroutine after the event: nobody else notices
+		in.ev("hgp " + Render(a[0]))
+		return nil, nil
+	case "gsettle":
+		return nil, nil
 	case "gdone":
 		return nil, nil
 	case "gwait":
